@@ -608,7 +608,7 @@ func TestZZVerifC16Trace(t *testing.T) {
 	}
 
 	live := zzC16NewLive(t)
-	hosts := [][]string{{}, {"example", "com"}, {"dns", "home", "example", "org"}, {"h", "test"}}
+	hosts := [][]string{{}, {"example", "com"}, {"dns", "home", "example", "org"}, {"h", "test"}, {"Dns", "EXAMPLE", "org"}}
 	curHost, curStrict := hosts[1], false
 	protos := []string{"udp", "tcp", "dnscrypt", "tls", "quic", "https", "https", "https", "tls", "quic"}
 	for i := 0; i < n; i++ {
@@ -629,6 +629,15 @@ func TestZZVerifC16Trace(t *testing.T) {
 		base := in.Host
 		if len(base) == 0 {
 			base = []string{"example", "com"}
+		}
+
+		// One client name in three spells the configured name in another
+		// letter case.
+		switch rng.Intn(6) {
+		case 0:
+			base = zzC16MapLabels(base, strings.ToUpper)
+		case 1:
+			base = zzC16MapLabels(base, strings.ToLower)
 		}
 
 		switch rng.Intn(8) {
@@ -691,7 +700,7 @@ func TestZZVerifC16Trace(t *testing.T) {
 
 		labs := []lab{}
 		seen := map[string]bool{}
-		for _, l := range append(append([]string{}, in.Cli...), in.Path...) {
+		for _, l := range append(append(append([]string{}, in.Cli...), in.Path...), in.Host...) {
 			if seen[l] {
 				continue
 			}
@@ -703,6 +712,15 @@ func TestZZVerifC16Trace(t *testing.T) {
 
 		w.put(map[string]any{"in": in, "out": got, "labels": labs, "concrete": conc})
 	}
+}
+
+func zzC16MapLabels(ls []string, f func(string) string) (out []string) {
+	out = make([]string, len(ls))
+	for i, l := range ls {
+		out[i] = f(l)
+	}
+
+	return out
 }
 
 func getenvDefault(k, d string) (v string) {
